@@ -536,7 +536,9 @@ func stmtsBeforeLoop(fd *ast.FuncDecl) []ast.Stmt {
 			return fd.Body.List[:i]
 		}
 	}
-	return fd.Body.List
+	// no loop of its own (the member loop sits in a shared driver): where the
+	// header ends cannot be read off this function
+	return nil
 }
 
 func checkC16(c *core.Ctx) {
@@ -852,10 +854,18 @@ func checkC16(c *core.Ctx) {
 			c.Undecide("arity pair %q: anchor not found", name)
 			return
 		}
-		po, pd := e.seq(ps)
-		fo, fdn := e.seq(fs)
+		// a fresh engine per pair: what it could not summarise is known per pair
+		pe := &arityEngine{p: p, summary: map[string]counts{}, inProg: map[string]bool{}}
+		po, pd := pe.seq(ps)
+		fo, fdn := pe.seq(fs)
 		pc, fc := po.union(pd), fo.union(fdn)
 		pairs++
+		if len(pe.unknown) > 0 {
+			// a count that leaves out what a helper takes is no count: no verdict
+			// on this pair (the helpers are listed below)
+			e.unknown = append(e.unknown, pe.unknown...)
+			return
+		}
 		c.Check("R2", "token arity: "+name, p.Pos(ffn.Pos()), fc.covers(pc) && (fc.unb || !pc.empty()),
 			fmt.Sprintf("the parser (%s) takes %s tokens for this construct, the formatter (%s) consumes %s: a form with a different count is mis-split and written back as a different (or unparsable) schema", load.FuncName2(pfn), pc, load.FuncName2(ffn), fc))
 	}
@@ -884,7 +894,14 @@ func checkC16(c *core.Ctx) {
 	c.Count("arity_pairs", pairs)
 	c.Floor("arity_pairs", 6)
 	if len(e.unknown) > 0 {
-		c.Undecide("arity analysis met helpers it cannot summarise: %v", e.unknown)
+		sort.Strings(e.unknown)
+		var uniq []string
+		for i, u := range e.unknown {
+			if i == 0 || u != e.unknown[i-1] {
+				uniq = append(uniq, u)
+			}
+		}
+		c.Undecide("arity analysis met helpers it cannot summarise: %v", uniq)
 	}
 
 	// ---- R3 repetition
